@@ -7,6 +7,7 @@
 package main
 
 import (
+	"context"
 	"encoding/json"
 	"flag"
 	"fmt"
@@ -121,7 +122,15 @@ func parent(cfg engine.Config, workers int, evidencePath, replayDir, knownPath s
 			if cfg.Race {
 				args = append(args, "-race")
 			}
-			cmd := exec.Command(cfg.Self, args...)
+			// a worker that runs away (a workload item that never finishes) must not hang the check: generous
+			// wall-clock limit, then machinery trouble (exit 2), never a verdict
+			limit := 30 * time.Minute
+			if cfg.Tier == "thorough" {
+				limit = 4 * time.Hour
+			}
+			ctx, cancel := context.WithTimeout(context.Background(), limit)
+			defer cancel()
+			cmd := exec.CommandContext(ctx, cfg.Self, args...)
 			cmd.Stderr = os.Stderr
 			cmd.Env = append(os.Environ(), "GOMAXPROCS=2")
 			if err := cmd.Run(); err != nil {
